@@ -59,6 +59,9 @@ def run(ctx, progs):
         from .. import shapes
 
         shapes.viewcmp1(ctx, prog, cfg, groups=[["Drain::as_slices", "Drain::as_mut_slices"]])
+        from .. import lenrule as _lr
+
+        _lr.view2(ctx, prog, cfg, only=("Drain::as_slices", "Drain::as_mut_slices"))
         backfill1(ctx, prog, cfg)
         eng = shared.run_mod1(prog)
         n = shared.report_requires(ctx, eng, "MOD1", cfg, entry_filter=DRAIN_ENTRIES)
